@@ -144,7 +144,10 @@ func (e *Engine) registerEnvIntrinsics(pkgPath string) {
 		if iv == nil || iv.T == nil {
 			panic(abortf("vrtWireXML: nil value"))
 		}
-		return x.token("xml", iv.V, iv.T)
+		tok := x.token("xml", iv.V, iv.T)
+		// stated bound: documents built by the harnesses are at most 1 MiB (larger payloads are C14's subject)
+		x.assume(Le(Len(tok), IntC(1<<20)))
+		return tok
 	})
 	reg("vrtB64", func(x *Exec, fr *frame, a []Value) Value {
 		return x.callModel("(*encoding/base64.Encoding).EncodeToString", fr, &Native{Kind: "b64encoding", Data: "b64"}, &BytesV{T: x.term(a[0])})
